@@ -188,6 +188,21 @@ CHECKS["C04"] = (
     "DESIGN.md §4 C04",
 )
 
+CHECKS["C15"] = (
+    "E-CH",
+    "CrossHair/z3 symbolic execution of parse_object/dump/re-parse on five link shapes with symbolic source values and a solver-chosen value supplied for the target itself",
+    "Bounded symbolic model checking of the real code. Five link shapes (plain->plain, two sources through a compute function, "
+    "group-valued source into a dict-typed target, plain source into init_args of a class argument, into the items of a list of "
+    "classes); source values are symbolic ints set through the object or left at their defaults, a solver bit supplies a symbolic value "
+    "for the target itself (directly or through the enclosing class spec), class and list length are solver choices. On every accepted "
+    "parse the target equals the function of the final source values; the dict that dump serialises has no target key and re-parsing "
+    "it reconstructs the target (path trees exhausted). A concrete part checks the API facts without a symbolic dimension: the option "
+    "of a plain target is rejected, the target is not required, env/argv sources, chains and double targets are refused at link "
+    "creation, single- and multi-file save (incl. a target inside a section written to a sub-file) hold no target and re-parse.",
+    "Trusted: CrossHair/z3, text stub for dump. Outside: instantiate-links (C16), links across subcommands, symbolic values in env/argv.",
+    "DESIGN.md §4 C15",
+)
+
 NOT_APPLICABLE = {
     "C13": "the resolver's only input is source code on disk (inspect.getsource/ast.parse/import); a symbolic program cannot be "
     "represented for that code and types/defaults are part of the program, so no dimension of the quantifier can be a solver variable",
